@@ -31,7 +31,7 @@ def main():
     others = []
     if "--other" in sys.argv:
         others = sys.argv[sys.argv.index("--other") + 1:]
-    rnd = {0: "", 1: "B", 2: "C", 3: "D"}[(int(k) - 1) // 2]       # rounds of seeding: k = 1,2 / 3,4 / 5,6 / 7,8
+    rnd = {0: "", 1: "B", 2: "C", 3: "D", 4: "E"}[(int(k) - 1) // 2]       # rounds of seeding: k = 1,2 / 3,4 / 5,6 / 7,8
     src = Path(f"/tmp/seedout{rnd}_{pid}/{k}")
     wt = Path(f"/tmp/seed{rnd}_{pid}")
     dst = VERIF / "seeded" / f"{pid}-{k}"
